@@ -33,6 +33,9 @@ class Prog:
 
     def desc(self):
         s = "%s src=%s(%s)" % ("lazy" if self.lazy else "eager", self.source["kind"], self.source.get("vt"))
+        sib = self.source.get("sib")
+        if sib:
+            s += " sibling=%s:%s%s/%s" % (sib["kind"], sib["attach"], "" if sib["etag"] is None else "@%d" % sib["etag"], sib["when"])
         s += " steps=[" + ", ".join(x.desc() for x in self.steps) + "]"
         s += " start=%s" % self.start if self.lazy else " tail=%s" % self.tail
         return s
@@ -196,6 +199,9 @@ def emit(p):
     elif k == "shared":
         L.append("  auto s0 = pg::%sST(%d, %d);" % ("Pending" if src["pending"] else "Ready", src["st"], src["code"]))
         var = "s0"
+    elif k == "shared_on":
+        L.append("  auto s0 = yaclib::RunShared<pg::MyError>(%s, %s);" % (EXEC_NAME[src["etag"]], source_fn(src)))
+        var = "s0"
     elif k == "schedule_e":
         L.append("  auto h0 = yaclib::Schedule<pg::MyError>(%s, %s);" % (EXEC_NAME[src["etag"]], source_fn(src)))
     elif k == "schedule":
@@ -218,7 +224,25 @@ def emit(p):
         raise ValueError(k)
     n = 0
     last = len(p.steps) - 1
+    sib = src.get("sib")
+
+    def emit_sibling():
+        body = "pg::EnterSib(pg::D(r));"
+        if sib["kind"] == "then":
+            cbs = "[capS = pg::Cap(90)](const pg::RT& r) -> pg::Tracked { %s return pg::Tracked{4242}; }" % body
+        else:
+            cbs = "[capS = pg::Cap(90)](const pg::RT& r) { %s }" % body
+        if sib["attach"] == "inline":
+            c = "s0.%s(%s)" % ("ThenInline" if sib["kind"] == "then" else "SubscribeInline", cbs)
+        elif sib["attach"] == "inherit":
+            c = "s0.%s(%s)" % ("Then" if sib["kind"] == "then" else "Subscribe", cbs)
+        else:
+            c = "%s.%s(%s, %s)" % ("s0" if sib["kind"] == "then" else "pg::Base(s0)", "Then" if sib["kind"] == "then" else "Subscribe", EXEC_NAME[sib["etag"]], cbs)
+        L.append("  %s%s;" % ("auto sib = " if sib["kind"] == "then" else "", c))
+
     for i, st in enumerate(p.steps):
+        if i == 0 and sib and sib["when"] == "before":
+            emit_sibling()
         cb = callback(st)
         mv = var if var == "s0" else "std::move(%s)" % var
         detach_tail = (not p.lazy) and p.tail == "detach" and i == last
@@ -227,9 +251,9 @@ def emit(p):
             if var == "s0" and detach_tail:
                 call = "%s.SubscribeInline(%s)" % (mv, cb)
         elif st.attach == "inherit":
-            call = "%s.%s(%s)" % (mv, "Detach" if detach_tail else "Then", cb)
+            call = "%s.%s(%s)" % (mv, ("Subscribe" if var == "s0" else "Detach") if detach_tail else "Then", cb)
         else:
-            call = "%s.%s(%s, %s)" % (mv, ("Subscribe" if var == "s0" else "Detach") if detach_tail else "Then", EXEC_NAME[st.etag], cb)
+            call = "%s.%s(%s, %s)" % ("pg::Base(s0)" if var == "s0" and detach_tail else mv, ("Subscribe" if var == "s0" else "Detach") if detach_tail else "Then", EXEC_NAME[st.etag], cb)
         n += 1
         if detach_tail:
             L.append("  %s;" % call)
@@ -237,6 +261,8 @@ def emit(p):
         else:
             L.append("  auto h%d = %s;" % (n, call))
             var = "h%d" % n
+        if i == 0 and sib and sib["when"] == "after":
+            emit_sibling()
     L.extend(post)
     if p.lazy:
         L.append("  pg::g.started = 1;")
@@ -265,8 +291,10 @@ def emit(p):
                      "pg::gout.final_code = d.code; pg::gout.ready = 1; pg::gout.allocs = pg::gc.news - pg::alloc_mark; pg::CheckSharedSlots(); pg::gout.finished = 1; }")
         else:
             L.append("  pg::FinishFuture(std::move(%s));" % var)
+    if sib and sib["kind"] == "then":
+        L.append("  pg::SibFinal(std::move(sib));")
     L.append("}")
-    L.append("static pg::Reg reg_%d{%d, &prog_%d};" % (p.id, p.id, p.id))
+    L.append("static pg::Reg reg_%d{%d, &prog_%d, %d};" % (p.id, p.id, p.id, 1 if sib else 0))
     return "\n".join(L)
 
 
@@ -280,6 +308,7 @@ class Expect:
         self.submits = 0
         self.rejected = 0
         self.steps = 0       # allocation budget (C20)
+        self.sib = None      # expectation for the sibling consumer of a shared source
 
 
 def interpret(p, mode="base", k=-1):
@@ -321,7 +350,7 @@ def interpret(p, mode="base", k=-1):
     if kind == "contract_on":
         state = (src["st"], src["code"] if (src["st"] != ST_VAL or vt == "T") else 0)
         inherited = 1
-    if kind in ("run_e", "schedule_e", "async_contract", "lazy_contract_e"):
+    if kind in ("run_e", "schedule_e", "async_contract", "lazy_contract_e", "shared_on"):
         head_exec = src["etag"]
         inherited = src["etag"]
     start_exec = None
@@ -345,7 +374,7 @@ def interpret(p, mode="base", k=-1):
             ex.log.append((0, start_exec if p.lazy else None, -1, 0))
         else:
             state = STOP
-    elif kind in ("run_e", "run", "schedule_e", "schedule", "async_contract", "lazy_contract", "lazy_contract_e"):
+    elif kind in ("run_e", "run", "schedule_e", "schedule", "async_contract", "lazy_contract", "lazy_contract_e", "shared_on"):
         etag = head_exec
         if p.lazy and start_exec is not None:
             etag = start_exec
@@ -372,6 +401,25 @@ def interpret(p, mode="base", k=-1):
                 state = STOP
     cur_vt = vt
     slots_made = set()
+    sib = src.get("sib")
+
+    def do_sibling():
+        # another consumer of the same shared source: always invoked exactly once (const Result& callback), with the
+        # source's result, or with StopError when its own submission is refused.  Sibling programs are only run without
+        # rejection and with everything rejected, so its position in the submission sequence does not matter.
+        ex.steps += 1
+        tag = None
+        dig = src_state
+        if sib["attach"] != "inline":
+            tag = sib["etag"] if sib["attach"] in ("exec", "stopped") else src_inherited
+            if not submit(tag):
+                dig = STOP
+                tag = None
+        ex.sib = {"dig": dig, "tag": tag, "final": (ST_VAL, 4242) if sib["kind"] == "then" else None}
+
+    src_state, src_inherited = state, inherited
+    if sib:
+        do_sibling()
     for st in p.steps:
         ex.steps += 1
         tag = None
@@ -488,6 +536,23 @@ def check_run(p, rec):
         elif tuple(rec["final"]) != tuple(ex.final):
             out.append(("final-result", "C02,C12,C05" if rec["mode"] != "base" else "C02,C12",
                         "final Result state=%d code=%d, expected state=%d code=%d" % (rec["final"][0], rec["final"][1], ex.final[0], ex.final[1])))
+    if ex.sib is not None:
+        sb = rec.get("sib") or [0, 0, -9, 0, -1, -9, 0]
+        if sb[0] != 1:
+            out.append(("sibling-exactly-once", "C02,C06", "the other consumer of the shared source was invoked %d times" % sb[0]))
+        else:
+            if (sb[2], sb[3]) != tuple(ex.sib["dig"]):
+                out.append(("sibling-argument", "C02,C06,C05" if rec["mode"] != "base" else "C02,C06",
+                            "the other consumer of the shared source received state=%d code=%d, expected state=%d code=%d"
+                            % (sb[2], sb[3], ex.sib["dig"][0], ex.sib["dig"][1])))
+            if ex.sib["tag"] is not None and sb[1] != ex.sib["tag"]:
+                out.append(("ran-on-executor", "C05", "the other consumer of the shared source ran with executor tag %d, expected %d" % (sb[1], ex.sib["tag"])))
+        if ex.sib["final"] is not None:
+            if sb[4] != 1:
+                out.append(("final-not-ready", "C02,C06", "the future returned to the other consumer of the shared source is not Ready at quiescence"))
+            elif (sb[5], sb[6]) != tuple(ex.sib["final"]):
+                out.append(("final-result", "C02,C06", "the other consumer's future holds state=%d code=%d, expected state=%d code=%d"
+                            % (sb[5], sb[6], ex.sib["final"][0], ex.sib["final"][1])))
     if rec["submits"] != ex.submits:
         out.append(("submission-count", "C05", "%d Submit calls on instrumented executors, expected %d" % (rec["submits"], ex.submits)))
     if rec.get("shared_bad"):
@@ -581,15 +646,21 @@ def gen_source(rng, lazy, coro):
     if lazy:
         kinds = ["schedule_e", "schedule", "lazy_contract", "lazy_contract_e", "make_task"] + (["coro_task"] if coro else [])
     else:
-        kinds = ["ready", "contract_before", "contract_after", "contract_on", "run_e", "run", "async_contract", "shared"] + (["coro"] if coro else [])
+        kinds = ["ready", "contract_before", "contract_after", "contract_on", "run_e", "run", "async_contract", "shared", "shared_on"] + (["coro"] if coro else [])
     k = rng.choice(kinds)
     src = {"kind": k, "vt": vt, "st": st, "code": code}
     if k == "shared":
         src["vt"] = "T"
         src["pending"] = rng.random() < 0.5
-    if k in ("run_e", "schedule_e", "async_contract", "lazy_contract_e"):
+    if k == "shared_on":
+        src["vt"] = "T"
+    if k in ("run_e", "schedule_e", "async_contract", "lazy_contract_e", "shared_on"):
         src["etag"] = rng.choice([1, 2, 3])
-    if k in ("run_e", "run", "schedule_e", "schedule"):
+    if k in ("shared", "shared_on") and rng.random() < 0.5:
+        att = rng.choice(["inline", "exec", "stopped"] + (["inherit", "inherit"] if k == "shared_on" else []))
+        src["sib"] = {"kind": rng.choice(["sub", "then"]), "attach": att, "when": rng.choice(["before", "after"]),
+                      "etag": {"exec": rng.choice([1, 2, 3]), "stopped": 4}.get(att)}
+    if k in ("run_e", "run", "schedule_e", "schedule", "shared_on"):
         src["fret"] = gen_ret(rng, 0, src["vt"], coro, allow_async=False)
         src["fret"]["code"] = code
     return src
@@ -597,7 +668,7 @@ def gen_source(rng, lazy, coro):
 
 def inherited_after(src, steps_so_far, lazy, start):
     inh = None
-    if src["kind"] in ("run_e", "schedule_e", "async_contract", "lazy_contract_e"):
+    if src["kind"] in ("run_e", "schedule_e", "async_contract", "lazy_contract_e", "shared_on"):
         inh = src["etag"]
     if src["kind"] == "contract_on":
         inh = 1
@@ -624,7 +695,7 @@ def gen_prog(rng, pid, lazy, coro, length):
     if immediate_only and p.source["kind"] in ("schedule_e", "lazy_contract_e"):
         p.source["etag"] = 3
     cur_vt = p.source["vt"]
-    from_shared = p.source["kind"] == "shared"
+    from_shared = p.source["kind"] in ("shared", "shared_on")
     slots = [{"pending": rng.randrange(2), "st": rng.choice([ST_VAL, ST_VAL, ST_EXC, ST_ERR]), "code": 9100 + rng.randrange(1, 99)},
              {"pending": rng.randrange(2), "st": rng.choice([ST_VAL, ST_VAL, ST_EXC, ST_ERR]), "code": 9200 + rng.randrange(1, 99)}]
     for i in range(length):
@@ -669,7 +740,7 @@ def generate(seed, n_random, coro, max_len=4, exhaustive_l1=True):
         # every source kind x attach x signature x return kind, length 1 (the sub-space is complete for the listed kinds)
         for lazy in (False, True):
             kinds_src = (["schedule_e", "schedule", "lazy_contract", "make_task"] + (["coro_task"] if coro else [])) if lazy else \
-                        (["ready", "contract_after", "contract_on", "run_e", "shared"] + (["coro"] if coro else []))
+                        (["ready", "contract_after", "contract_on", "run_e", "shared", "shared_on"] + (["coro"] if coro else []))
             for sk in kinds_src:
                 for attach in ("inline", "exec", "inherit", "stopped"):
                     for sig in SIGS_T:
@@ -682,11 +753,16 @@ def generate(seed, n_random, coro, max_len=4, exhaustive_l1=True):
                                 src = {"kind": sk, "vt": "T", "st": in_state, "code": 7}
                                 if sk == "shared":
                                     src["pending"] = (pid % 2 == 0)
+                                if sk in ("shared", "shared_on"):
                                     if sig in ("R", "Vr"):
                                         continue
-                                if sk in ("run_e", "schedule_e"):
+                                    if pid % 3 != 2 and (attach != "inherit" or sk == "shared_on"):
+                                        # another consumer on the same shared source, attached the same way as the step
+                                        src["sib"] = {"kind": "then" if pid % 2 else "sub", "attach": attach, "when": "before" if (pid // 2) % 2 else "after",
+                                                      "etag": {"exec": 1 + (pid // 3) % 2, "stopped": 4}.get(attach)}
+                                if sk in ("run_e", "schedule_e", "shared_on"):
                                     src["etag"] = 1
-                                if sk in ("run_e", "run", "schedule_e", "schedule"):
+                                if sk in ("run_e", "run", "schedule_e", "schedule", "shared_on"):
                                     src["fret"] = {"kind": "res", "st": in_state, "code": 7}
                                 p.source = src
                                 if attach == "inherit" and inherited_after(src, [], lazy, "tofuture") is None:
